@@ -122,6 +122,9 @@ func runTransferStream(t *testing.T, name string, mt bool) {
 		if !mt && i%3 == 2 && i%2 == 0 {
 			n, relay = 4, false // room for a three-hop route
 		}
+		if !mt && i == 1 {
+			n, relay = 3, false // three fully connected chains (forged three-segment class scenario)
+		}
 		if mt && i%3 == 2 {
 			n, relay = 3, false // three fully connected chains (relay-edit scenario)
 		}
